@@ -985,9 +985,9 @@ def is_balanced_statement(lines, only_tokens=False, reraise=0):
         >>> is_balanced_statement(lines, only_tokens=1)
         False
     """
-    # Only iterate through non-empty lines otherwise tokenize will stop short
+    # Only iterate through non-blank lines otherwise tokenize will stop short
     lines = list(lines)
-    iterable = (line for line in lines if line)
+    iterable = (line for line in lines if line.strip())
     def _readline():
         return next(iterable)
     try:
